@@ -120,7 +120,10 @@ class Engine:
         # outdated documents - serially (the reference for this variant) or under a simulated schedule
         e = stream(seed_run, "edits")
         if e.random() < 0.6:
-            edits = _gen_edits(e, files, proj, docnames)
+            include_only = e.random() < 0.3
+            edits = _gen_include_edits(e, files, proj, docnames) if include_only else _gen_edits(
+                e, files, proj, docnames)
+
             for _ in range(e.choice([1, 2])):
                 nproc = e.randint(2, 5)
                 nchunks = e.randint(2, max(2, min(len(docnames), 5)))
@@ -179,6 +182,62 @@ class Engine:
                             raise RuntimeError(f"incremental reference build failed in harness code: {r2}")
                         inc_refs[ekey] = r2
                         count("reference_builds_incremental")
+                        # I-INC: the unresolved doctree of every document after the incremental rebuild equals the one
+                        # a fresh full build of the edited tree produces (a document's own doctree depends only on
+                        # its text, path, configuration and included files - not on what was built before)
+                        _apply_edits(root, var["edits"])
+                        st, fr = proc.run_in_child(_build, (plan, root, {"kind": "serial", "doctrees": True},
+                                                            f"fresh{vi}"), timeout=600)
+                        _restore_tree(root, plan["files"], var["edits"])
+                        if st == "exc":
+                            raise RuntimeError(f"fresh build of the edited tree failed in harness code: {fr}")
+                        count("reference_builds_fresh_of_edited_tree")
+                        evals += 1
+                        if r2["obs"][0] == "ok" and fr["obs"][0] == "ok" and r2.get("doctrees") is not None:
+                            nontrivial.add(sha(pdig + "inc-vs-fresh" + ekey)[:16])
+                            rr = set(r2.get("reread") or [])
+                            # only documents the incremental build actually re-read are compared: the property
+                            # speaks about documents that are parsed (after some history), not about Sphinx's
+                            # decision which documents are outdated
+                            bad = [d for d in sorted(fr["doctrees"]) if d in rr
+                                   and fr["doctrees"][d] != r2["doctrees"].get(d)]
+                            count("i_inc_documents_compared", len(rr & set(fr["doctrees"])))
+                            # I-DEP: a document that (in the fresh build) records an edited non-document file as a
+                            # dependency - it includes it - must be re-read: otherwise the doctree served for it is
+                            # the one of its *old* included text
+                            edited = {os.path.normpath(k) for k in var["edits"] if not k.endswith(".md")}
+                            stale = []
+                            for d, deps in sorted((fr.get("dependencies") or {}).items()):
+                                hit = [x for x in deps if os.path.normpath(x) in edited]
+                                if hit and d not in rr and d in fr["doctrees"] and (
+                                        fr["doctrees"][d] != r2["doctrees"].get(d)):
+                                    stale.append((d, hit))
+                            count("i_dep_dependencies_checked", sum(
+                                1 for d, deps in (fr.get("dependencies") or {}).items()
+                                if any(os.path.normpath(x) in edited for x in deps)))
+                            if stale:
+                                violations.append({"invariant": "I-DEP",
+                                                   "signature": f"{self.name}/I-DEP/document-with-edited-include-not-re-read",
+                                                   "detail": {"stale": stale[:5], "edits": sorted(var["edits"]),
+                                                              "reread": sorted(rr)}})
+                                break
+                            if bad:
+                                d0 = bad[0]
+                                a, b = fr["doctrees"][d0], r2["doctrees"].get(d0) or ""
+                                la, lb = a.splitlines(), b.splitlines()
+                                k = next((x for x, (p_, q_) in enumerate(zip(la, lb)) if p_ != q_), min(len(la), len(lb)))
+                                reread = d0 in (r2.get("reread") or [])
+                                from .c15_history import _norm
+
+                                ch = (f"reread-doctree-differs-from-fresh-build:"
+                                      f"{_norm(la[k] if k < len(la) else '<end>')}|{_norm(lb[k] if k < len(lb) else '<end>')}")
+                                violations.append({"invariant": "I-INC", "signature": f"{self.name}/I-INC/{ch}",
+                                                   "detail": {"document": d0, "documents_differing": bad[:6],
+                                                              "edits": sorted(var["edits"]), "reread": r2.get("reread"),
+                                                              "fresh_dependencies": (fr.get("dependencies") or {}).get(d0),
+                                                              "fresh": la[max(0, k - 2):k + 3],
+                                                              "incremental": lb[max(0, k - 2):k + 3]}})
+                                break
                         log.add("obs", key=f"incremental-serial-{ekey}", sha256=sha(repr(r2["obs"]))[:16])
                         if r2.get("reread") is not None:
                             count("incremental_docs_reread", len(r2["reread"]))
@@ -364,12 +423,16 @@ def _build(plan, root, var, tag):
             partasks.install(sched)
             parallel = max(2, var["nproc"])
         r = sut.sphinx_build(root, tag, root, conf, builder=plan["builder"], parallel=parallel, hooks=hooks,
-                             incremental=True)
+                             incremental=True, collect_doctrees=var.get("second") == "serial")
         reread = sorted(seen)
     else:
-        r = sut.sphinx_build(root, tag, root, conf, builder=plan["builder"], parallel=parallel, hooks=hooks)
+        r = sut.sphinx_build(root, tag, root, conf, builder=plan["builder"], parallel=parallel, hooks=hooks,
+                             collect_doctrees=bool(var.get("doctrees")))
     shutil.rmtree(os.path.join(root, "_build", tag), ignore_errors=True)
     out = {"obs": r[:3]}
+    if isinstance(r[3], dict) and "doctrees" in r[3]:
+        out["doctrees"] = r[3]["doctrees"]
+        out["dependencies"] = r[3].get("dependencies")
     if reread is not None:
         out["reread"] = reread
     if sched is not None:
@@ -412,13 +475,35 @@ def _restore_tree(root: str, files: dict, edits: dict) -> None:
     sut.write_tree(root, files)
 
 
+_MISSING_INC = re.compile(r"\{include\} (no-such-file\.inc)")
+
+
+def _gen_include_edits(e, files: dict, proj: dict, docnames: list) -> dict:
+    """Edits that touch non-document files only: include files change, a missing include target appears."""
+    import posixpath
+
+    edits: dict = {}
+    for d in docnames:
+        text = files.get(d + ".md", "")
+        if _MISSING_INC.search(text) and e.random() < 0.8:
+            edits[posixpath.join(posixpath.dirname(d), "no-such-file.inc")] = (
+                "Now the file exists.\n\n## Appeared Heading\n\ntext *here*\n")
+    for inc in proj["includes"]:
+        if e.random() < 0.5 or not edits:
+            edits[inc] = e.choice(["# Edited include\n\nnew text\n\n## Usage\n", "edited plain paragraph\n",
+                                   "alpha\nMARK\n# Included title (edited)\n\nbeta\n"])
+            if len(edits) >= 2:
+                break
+    return edits
+
+
 def _gen_edits(e, files: dict, proj: dict, docnames: list) -> dict:
     """1-3 edits of the project between the two builds (JSON-able: {relative path: new text | None=touch})."""
     edits: dict = {}
     mds = [d + ".md" for d in docnames if d != "index" and d + ".md" in files]
     for _ in range(e.choice([1, 2, 3])):
         kind = e.choice(["rename_heading", "rename_and_link", "rename_and_link", "append_link", "front_matter",
-                         "include_file", "touch", "add_heading", "remove_doc", "add_doc", "swap_contents"])
+                         "include_file", "touch", "add_heading", "remove_doc", "add_doc"])
         rel = e.choice(mds)
         if isinstance(edits.get(rel), dict):
             continue  # this document is being removed
@@ -467,14 +552,6 @@ def _gen_edits(e, files: dict, proj: dict, docnames: list) -> dict:
             otext = edits.get(other) if isinstance(edits.get(other), str) else files[other]
             if isinstance(otext, str):
                 edits[other] = otext.rstrip("\n") + f"\n\n[]({gd.relpath_from(other[:-3], new_name)}.md#usage)\n"
-        elif kind == "swap_contents" and len(mds) >= 2:
-            # two documents exchange their text: everything stored per docname must follow the new content
-            other = e.choice([m for m in mds if m != rel])
-            if not isinstance(edits.get(rel), dict) and not isinstance(edits.get(other), dict):
-                a = edits.get(rel) if isinstance(edits.get(rel), str) else files[rel]
-                b = edits.get(other) if isinstance(edits.get(other), str) else files[other]
-                if gd.posix_dir(rel) == gd.posix_dir(other):  # relative links stay meaningful
-                    edits[rel], edits[other] = b, a
         elif kind == "include_file":
             inc = e.choice(proj["includes"])
             edits[inc] = "# Edited include\n\nnew text {{ key1 }}\n\n## Usage\n"
